@@ -303,3 +303,113 @@ def targets():      # noqa: F811
     # shared with C14: a container built by setting its sub-circuits afterwards is the same circuit as one built with them
     from . import c14
     return _targets_before_folds() + [diagrams.target_child_folds()] + parallel_law.targets() + emitters + [c14.target_set_subcircuits(), c14.target_container_init()]
+
+
+
+def target_get_impedances_glue():
+    """Element.get_impedances / Connection.get_impedances, whatever shape the frequencies come in (an array, a list, a plain float or
+    int): the impedance is computed by `_impedance` with ALL of the object's data -- the parameter values and, for a container
+    element, its sub-circuits -- and what comes back is that result.  `_calculate_impedances` is replaced by a stand-in that does
+    what its own contract says (it hands the object's values and sub-circuits to `_impedance`); a route around it must do the same."""
+    from pyvc import overload as O
+    BASE = "circuit/base"
+
+    def run(sess: Session):
+        class Z:
+            def __init__(self, tag):
+                self.tag = tag
+
+            def astype(self, *a, **k):
+                return self
+
+        class Fr:
+            """an array of frequencies: only handed on"""
+            def __init__(self, of):
+                self.of = of
+        CON, RV = object(), object()
+        for kind, freq_kind in ((k, f) for k in ("container", "element", "connection") for f in ("array", "float", "int", "list")):
+            calls, via = [], []
+
+            class Me:
+                def get_values(self):
+                    return {"R": RV}
+
+                def get_subcircuits(self):
+                    return {"X_1": CON}
+
+                def _impedance(self, f, **kw):
+                    calls.append((f, kw))
+                    return Z(len(calls))
+            me = Me()
+            want_kw = {"container": {"R": RV, "X_1": CON}, "element": {"R": RV}, "connection": {}}[kind]
+
+            def calc(obj, f):
+                via.append((obj, f))
+                return obj._impedance(Fr(f), **want_kw)
+            f = {"array": Fr("input"), "float": 10.0, "int": 3, "list": [1.0, 2.0]}[freq_kind]
+            ns = {"_calculate_impedances": calc, "_is_floating": lambda x: isinstance(x, float), "_is_integer": lambda x: isinstance(x, int) and not isinstance(x, bool),
+                  "_is_floating_array": lambda x: isinstance(x, Fr), "_cast_to_floating_array": lambda x: Fr(x), "inf": float("inf"), "ComplexImpedance": complex,
+                  "isinstance": lambda o, c: (c == "Container" and kind == "container") or (c == "Element" and kind in ("container", "element")) or (c == "Connection" and kind == "connection") if isinstance(c, str) else isinstance(o, c),
+                  "Container": "Container", "Element": "Element", "Connection": "Connection"}
+            qual = "Connection.get_impedances" if kind == "connection" else "Element.get_impedances"
+            O.load(BASE, [qual], ns)
+            try:
+                out = ns["get_impedances"](me, f)
+            except TypeError as ex:
+                out = ex
+            tag = f"[{kind}, frequencies given as {freq_kind}]"
+            sess.check("post", [], z3.BoolVal(len(calls) == 1 and calls[0][1] == want_kw), 0, label=f"{tag}one _impedance evaluation with the object's values{' and sub-circuits' if kind == 'container' else ''}")
+            sess.check("post", [], z3.BoolVal(isinstance(out, Z) and len(calls) == 1 and out.tag == 1), 0, label=f"{tag}what _impedance computed is what is returned")
+    return (f"{BASE}:Element.get_impedances / Connection.get_impedances", BASE, "Element.get_impedances", run)
+
+
+_targets_before_glue2 = targets
+
+
+def targets():      # noqa: F811
+    return _targets_before_glue2() + [target_get_impedances_glue()]
+
+
+
+def target_builder_add():
+    """CircuitBuilder.add / `+=`: the element object that is handed over is itself appended to the builder's current connection
+    (once, at the end) -- not a copy: a circuit assembled with the builder from element objects describes those objects' current
+    values when it is built, whichever of the two spellings was used; `+=` returns the builder; anything but an element is refused."""
+    import copy as _copy
+    from pyvc import overload as O
+    CB = "circuit/circuit_builder"
+
+    def run(sess: Session):
+        class El:
+            def __init__(self):
+                self.value = 1.0
+
+            def __copy__(self):
+                return El()
+
+            def __deepcopy__(self, memo):
+                return El()
+        for how in ("add", "__iadd__"):
+            ns = {"Element": El, "isinstance": isinstance, "copy": _copy.copy, "deepcopy": _copy.deepcopy, "TypeError": TypeError}
+            first, e = El(), El()
+            me = type("B", (O.auto_methods(CB, "CircuitBuilder", ns),), {})()
+            me._elements = [first]
+            O.load(CB, [f"CircuitBuilder.{how}"], ns)
+            out = ns[how](me, e)
+            sess.check("post", [], z3.BoolVal(len(me._elements) == 2 and me._elements[0] is first and me._elements[1] is e), 0, label=f"[{how}]the element object itself is appended, once, after what was there")
+            if how == "__iadd__":
+                sess.check("post", [], z3.BoolVal(out is me), 0, label="[__iadd__]returns the builder")
+            refused = False
+            try:
+                ns[how](me, "R")
+            except TypeError:
+                refused = True
+            sess.check("post", [], z3.BoolVal(refused and len(me._elements) == 2), 0, label=f"[{how}]something that is not an element is refused (TypeError), nothing is added")
+    return (f"{CB}:CircuitBuilder.add / __iadd__", CB, "CircuitBuilder.add", run)
+
+
+_targets_before_builder = targets
+
+
+def targets():      # noqa: F811
+    return _targets_before_builder() + [target_builder_add()]
